@@ -52,6 +52,9 @@ CHECKS = {
             "sync.Pool replaced by a deterministic LIFO free list (the adversarial legal behaviour)", "DESIGN.md §6 C15"),
  "C20": seq("operation sequences with Backup at every position under both I/O back-ends; every Backup is verified (copy opens while the source is open, equal dump, no lock file, independent), then the source's reference-map oracle continues through a 3-block Put and a restart",
             "SIGBUS is turned into a recoverable panic and reported; backups of databases with > 4 operations are not explored", "DESIGN.md §6 C20"),
+ "C16": ("proc", "explicit-state enumeration of all Open/Close/Corrupt/Repair event sequences of 2-3 clients against a one-variable lock model, executed in-process and with real child processes (transcripts must agree); racing Opens explored under the controlled scheduler with every file-system/flock call as a schedule point",
+            "all event sequences up to the length bound: mutual exclusion, ErrDatabaseIsUsing with byte-identical directory for a rejected Open, lock released by Close and by a failed Open; all interleavings of 2-3 racing Opens on a fresh and on a populated directory",
+            "flock on separate descriptors in one process excludes like separate processes (bound to real processes by the child-process runs); GC disabled during executions", "DESIGN.md §6 C16"),
  "C17": seq("C01's operation sequences; after every step Stat is compared with values recomputed independently from the data files decoded with the package's own sequential reader (live bytes, file count, key count, size-limit rule)",
             "byte-level recomputation for Standard I/O only; DiskSize itself is not pinned by the statement", "DESIGN.md §6 C17"),
 }
